@@ -56,16 +56,22 @@ METHODS = {
         "fit": ([], "EvolutionaryAlgorithm"),
     },
 }
+METHODS["DifferentialEvolution"] = {
+    "_get_init_population": ([], None),
+    "_get_new_population": ([], None),
+    "_from_population_g_to_fitness": ([], None),
+}
 # methods that `fit` / the generation step reach through `self.` and that subclasses override (or that are glue around the
 # user's callables): dynamic dispatch = a parameter of the generated definitions
-DISPATCH = {"_get_init_population", "_get_new_population", "_from_population_g_to_fitness", "_get_phenotype", "_update_data"}
+DISPATCH = {"_get_init_population", "_get_new_population", "_from_population_g_to_fitness", "_get_phenotype", "_update_data",
+            "_first_generation", "_adapt"}
 # calls without effect on the modelled state: seeding is C04's subject, _show_progress only prints
 IGNORED = {"check_random_state", "self._show_progress"}
 # base-class methods the theorems instantiate the dispatch with must not be overridden anywhere
 NOT_OVERRIDDEN = {"fit", "_termitation_check", "_get_fitness", "_update_fittest", "_update_stats", "_get_aim", "get_remains_calls",
                   "get_fittest", "get_stats"}
 COQT = {"Z": "Z", "Q": "Q", "B": "bool", "QI": "Qinf", "G": "G", "P": "P", "LG": "list G", "LP": "list P", "LQ": "list Q",
-        "OZ": "option Z", "OQ": "option Q", "TF": "TheFittest", "GPQI": "G * P * Qinf", "LS": "list StatsEntry", "SE": "StatsEntry",
+        "OZ": "option Z", "OQ": "option Q", "TF": "TheFittest", "GPQI": "G * P * Qinf", "LS": "list StatsEntry", "SE": "StatsEntry", "LB": "list bool",
         "CB": "bool * Z",
         "TheFittest": "TheFittest", "EvolutionaryAlgorithm": "EvolutionaryAlgorithm"}
 PREFIX = {"TheFittest": "tf", "EvolutionaryAlgorithm": "ea"}
@@ -76,9 +82,10 @@ def fname(cls, f):
 
 
 class MT:
-    def __init__(self, cls, name, node):
+    def __init__(self, cls, name, node, mcls=None):
         self.cls, self.name, self.node = cls, name, node
-        self.args, self.ret = METHODS[cls][name]
+        self.mcls = mcls or cls            # the class the method is defined in (its state is the record of `cls`)
+        self.args, self.ret = METHODS[self.mcls][name]
         self.env = {a: t for a, t in self.args}
         self.writes = False
 
@@ -284,6 +291,32 @@ class MT:
                     raise Untranslatable(s, "argument of Statistics._update")
                 self.writes = True      # Statistics._update (pinned below): one copied entry appended per key
                 return f"let self := {self.setter('_stats', '(' + fname(self.cls, '_stats') + ' self ++ [' + c + '])')} in\n" + self.block(rest, end)
+        # ---- the trial vectors: partial(...) + list comprehension over the population = the variation operators (C07): an oracle here
+        if isinstance(s, ast.Assign) and ast.unparse(s.value).startswith("partial(self._get_new_individ_g"):
+            return self.block(rest, end)
+        if isinstance(s, ast.Assign) and isinstance(s.targets[0], ast.Name) and ast.unparse(s.value) == \
+                "np.array([get_new_individ_g(individ_g=self._population_g_i[i]) for i in range(self._pop_size)], dtype=np.float64)":
+            self.env[s.targets[0].id] = "LG"
+            return f"let {s.targets[0].id} := d_trials self in\n" + self.block(rest, end)
+        # ---- mask = a >= b  (element-wise) and the masked writes  self._f[mask] = x[mask]
+        if isinstance(s, ast.Assign) and isinstance(s.targets[0], ast.Name) and isinstance(s.value, ast.Compare) and len(s.value.ops) == 1 \
+                and isinstance(s.value.ops[0], ast.GtE):
+            (a, ta), (b, tb) = self.expr(s.value.left), self.expr(s.value.comparators[0])
+            if ta == "LQ" and tb == "LQ":
+                self.env[s.targets[0].id] = "LB"
+                return f"let {s.targets[0].id} := geq_mask {a} {b} in\n" + self.block(rest, end)
+        if isinstance(s, ast.Assign) and isinstance(s.targets[0], ast.Subscript) and isinstance(s.value, ast.Subscript) \
+                and isinstance(s.targets[0].slice, ast.Name) and self.env.get(s.targets[0].slice.id) == "LB" \
+                and ast.unparse(s.value.slice) == s.targets[0].slice.id:
+            tgt = s.targets[0].value
+            if isinstance(tgt, ast.Attribute) and isinstance(tgt.value, ast.Name) and tgt.value.id == "self":
+                ft = self.field_type(self.cls, tgt.attr)
+                src, st_ = self.expr(s.value.value)
+                if st_ != ft or ft not in ("LG", "LP", "LQ"):
+                    raise Untranslatable(s, "masked write types")
+                self.writes = True
+                m_ = s.targets[0].slice.id
+                return f"let self := {self.setter(tgt.attr, 'mask_write ' + m_ + ' ' + src + ' (' + fname(self.cls, tgt.attr) + ' self)')} in\n" + self.block(rest, end)
         # ---- x = self._m(...)  /  self._f = self._m(...)
         if isinstance(s, ast.Assign) and len(s.targets) == 1 and self.self_call(s.value) is not None and self.cls == "EvolutionaryAlgorithm":
             m = self.self_call(s.value)
@@ -293,6 +326,8 @@ class MT:
                 if ta != "LG":
                     raise Untranslatable(s, "argument of _get_phenotype")
                 vcode, vt, pre = f"(d_get_phenotype self {a})", "LP", ""
+            elif m == "_get_phenotype":
+                raise Untranslatable(s, "shape of the _get_phenotype call")
             elif m in METHODS[self.cls] and METHODS[self.cls][m][1] is not None:
                 codes = self.call_args(self.cls, m, s.value)
                 vt = METHODS[self.cls][m][1]
@@ -463,7 +498,7 @@ class MT:
         body = self.block(list(self.node.body), end)
         rt = COQT[self.cls] if (self.ret is None or self.ret == self.cls) else (f"{COQT[self.cls]} * ({COQT[self.ret]})" if self.writes_anywhere else COQT[self.ret])
         ps = " ".join(f"({a} : {COQT[t]})" for a, t in self.args)
-        return f"Definition py_{self.cls}_{self.name} (self : {COQT[self.cls]}) {ps} : {rt} :=\n{body}."
+        return f"Definition py_{self.mcls}_{self.name} (self : {COQT[self.cls]}) {ps} : {rt} :=\n{body}."
 
 
 def init_of(cls, node):
@@ -527,7 +562,8 @@ def emit(out_file=OUT_FILE, src_root=None):
             L_.append("Variable fitness_function : list P -> list Q.")
             L_.append("Variable par_value : EvolutionaryAlgorithm -> list P -> list Q.")
             L_.append("Variable d_get_phenotype : EvolutionaryAlgorithm -> list G -> list P.")
-            L_.append("Variables d_get_init_population d_get_new_population d_update_data d_from_population_g_to_fitness : EvolutionaryAlgorithm -> EvolutionaryAlgorithm.")
+            L_.append("Variables d_get_init_population d_get_new_population d_update_data d_from_population_g_to_fitness d_first_generation d_adapt : EvolutionaryAlgorithm -> EvolutionaryAlgorithm.")
+            L_.append("Variable d_trials : EvolutionaryAlgorithm -> list G.      (* the trial vectors of one DE generation: the variation operators (C07) *)")
             L_.append("")
         defs = {n.name: n for n in classes[cls].body if isinstance(n, ast.FunctionDef)}
         if cls == "TheFittest":
@@ -558,6 +594,24 @@ def emit(out_file=OUT_FILE, src_root=None):
                 failed.append((f"{cls}.{m}", str(ex)))
                 L_.append(f"(* UNTRANSLATABLE {cls}.{m}: {str(ex).replace('*)', '* )')} *)")
             L_.append("")
+    # ---- the greedy family: DifferentialEvolution's overrides (the same record: a subclass adds no loop state)
+    de_path = os.path.join(src_root or C.SRC, "thefittest/optimizers/_differentialevolution.py")
+    de_cls = {n.name: n for n in ast.parse(open(de_path).read()).body if isinstance(n, ast.ClassDef)}.get("DifferentialEvolution")
+    if de_cls is None:
+        raise Untranslatable(mod, "class DifferentialEvolution not found")
+    de_defs = {n.name: n for n in de_cls.body if isinstance(n, ast.FunctionDef)}
+    for m in METHODS["DifferentialEvolution"]:
+        if m not in de_defs:
+            failed.append((f"DifferentialEvolution.{m}", "method not found"))
+            L_.append(f"(* UNTRANSLATABLE DifferentialEvolution.{m}: method not found *)")
+            continue
+        try:
+            L_.append(f"(* optimizers/_differentialevolution.py:{de_defs[m].lineno}  DifferentialEvolution.{m} *)")
+            L_.append(MT("EvolutionaryAlgorithm", m, de_defs[m], mcls="DifferentialEvolution").translate())
+        except Untranslatable as ex:
+            failed.append((f"DifferentialEvolution.{m}", str(ex)))
+            L_.append(f"(* UNTRANSLATABLE DifferentialEvolution.{m}: {str(ex).replace('*)', '* )')} *)")
+        L_.append("")
     L_.append("(* EvolutionaryAlgorithm.__init__ (checked line by line by the translator): _sign = -1 if minimization else 1; _aim = _get_aim(optimal_value,")
     L_.append("   termination_error_value) evaluated with that sign; _calls = 0; _thefittest = TheFittest(); _stats = Statistics(); _iters, _pop_size,")
     L_.append("   _no_increase_num, _elitism, _keep_history, _on_generation as given; _n_jobs = _get_n_jobs(n_jobs) (C16); the populations are not set yet *)")
